@@ -43,6 +43,8 @@ structure Product where
   assetOut : Nat
   outOracle : Bool
   outFixed : Int
+  /-- `LiquidationPenalty` of the extended pair vault -/
+  penalty : Dec := 0
 deriving Repr, DecidableEq, Inhabited
 
 structure App where
@@ -103,10 +105,16 @@ structure Vault where
   amountOut : Int
   interest : Int
   closingFee : Int
+  /-- `InterestAccumulated` after the accrual a seizure books first (`rewards.CalculateVaultInterest`, float arithmetic:
+  external value obtained from the real keeper); equals `interest` when nothing accrues -/
+  intPost : Int := 0
 deriving Repr, DecidableEq, Inhabited
 
 /-- principal + accrued interest + closing fee, as recorded -/
 def Vault.totalOut (v : Vault) : Int := v.amountOut + v.interest + v.closingFee
+
+/-- the same after the accrual booked by the seizure itself -/
+def Vault.totalOutPost (v : Vault) : Int := v.amountOut + v.intPost + v.closingFee
 
 def vaultCRof (e : Env) (v : Vault) : Option Dec :=
   match e.product? v.prod with
@@ -130,8 +138,11 @@ structure Borrow where
   assetIn : Nat
   assetOut : Nat
   amountIn : Int
-  /-- `AmountOut + InterestAccumulated.TruncateInt()` after the in-memory accrual the code performs first -/
-  debt : Int
+  /-- `AmountOut.Amount`, the principal -/
+  principal : Int
+  /-- `InterestAccumulated` (a `Dec`) AFTER the in-memory accrual `CalculateBorrowInterestForLiquidation` performs before
+  the decision (external value obtained from the real keeper) -/
+  interestPost : Dec := 0
   /-- `BridgedAssetAmount.Amount` (zero for a same-pool borrow) -/
   bridgedAmount : Int
   /-- id of the asset whose denom is `BridgedAssetAmount.Denom` -/
@@ -148,7 +159,17 @@ structure Borrow where
   /-- `LiquidationThreshold` of the first / second transit asset -/
   ltFirst : Dec
   ltSecond : Dec
+  /-- `LiquidationPenalty`, `LiquidationBonus` of the collateral asset's rates, its cToken asset, the lend position and
+  the pool the debt asset was borrowed from -/
+  pen : Dec := 0
+  bon : Dec := 0
+  cAsset : Nat := 0
+  lendId : Nat := 0
+  outPool : Nat := 0
 deriving Repr, DecidableEq, Inhabited
+
+/-- the debt the decision looks at: `AmountOut + InterestAccumulated.TruncateInt()` after the accrual -/
+def Borrow.debt (b : Borrow) : Int := b.principal + Dec.truncateInt b.interestPost
 
 /-- `lend.CalculateCollateralizationRatio`: debt value / collateral value. `Quo` by a zero collateral value panics. -/
 def borrowRatio (e : Env) (b : Borrow) : Option Dec :=
@@ -225,6 +246,8 @@ structure Auction where
   locked : Nat
   asset : Nat
   amount : Int
+  /-- the debt the auction is to raise (`DebtToken` = locked vault's `TargetDebt`; generation 1 `InflowTokenTargetAmount`) -/
+  target : Int := 0
 deriving Repr, DecidableEq, Inhabited
 
 structure Locked where
@@ -233,7 +256,32 @@ structure Locked where
   app : Nat
   amountIn : Int
   isBorrow : Bool
+  /-- generation 2: `DebtToken`; generation 1: `AmountOut` (principal) -/
+  debt : Int := 0
+  /-- generation 2: `TargetDebt`; generation 1: the auction's inflow target -/
+  target : Int := 0
+  /-- generation 2: `FeeToBeCollected`; generation 1: `InterestAccumulated` (interest + closing fee) -/
+  fee : Int := 0
+  bonus : Int := 0
+  /-- `CurrentCollaterlisationRatio` / `CrAtLiquidation` -/
+  cr : Dec := 0
+  /-- `CollateralToBeAuctioned`: generation 1 the collateral's VALUE (a `Dec`), generation 2 the amount (an integer) -/
+  collValue : Dec := 0
 deriving Repr, DecidableEq, Inhabited
+
+/-- what is written on the locked vault and the auction besides the collateral -/
+structure Amounts where
+  debt : Int := 0
+  target : Int := 0
+  fee : Int := 0
+  bonus : Int := 0
+  cr : Dec := 0
+  collValue : Dec := 0
+deriving Repr, DecidableEq, Inhabited
+
+def statKey (pool asset : Nat) : Nat := pool * 4294967296 + asset
+
+def Bal.remove (b : Bal) (k : Nat) : Bal := b.filter (fun x => !(x.1 == k))
 
 structure World where
   vaults : List Vault := []          -- in store order (`GetVaults`: big-endian id keys ⇒ ascending ids)
@@ -247,13 +295,16 @@ structure World where
   newLocked : List Locked := []
   newAuctions : List Auction := []
   borrows : List Borrow := []        -- in `GetBorrows` order
+  lendBal : Bal := []                -- lend positions: id ↦ `AmountIn.Amount` (absent = deleted)
+  totalLend : Bal := []              -- `PoolAssetLBMapping.TotalLend` by `statKey pool asset`
+  totalBorrowed : Bal := []          -- `PoolAssetLBMapping.TotalBorrowed` by `statKey pool asset`
 deriving Repr, Inhabited
 
 /-- `ApplyFuncIfNoError`: cache context written back only on success; a panic is turned into an error -/
 def applyIfNoError (f : World → Option World) (w : World) : World := (f w).getD w
 
 /-- the hand-over common to both generations: collateral to the auction account, locked vault, one auction -/
-def handOver (w : World) (v : Vault) (asset : Nat) : Option World :=
+def handOver (w : World) (v : Vault) (asset : Nat) (k : Amounts := {}) : Option World :=
   if v.amountIn > 0 ∧ w.vaultBal.get asset < v.amountIn then none else
   some { w with
     vaults := w.vaults.filter (·.id != v.id)
@@ -262,11 +313,33 @@ def handOver (w : World) (v : Vault) (asset : Nat) : Option World :=
     auctionBal := if v.amountIn > 0 then w.auctionBal.add asset v.amountIn else w.auctionBal
     lockedId := w.lockedId + 1
     auctionId := w.auctionId + 1
-    newLocked := w.newLocked ++ [{ id := w.lockedId + 1, orig := v.id, app := v.app, amountIn := v.amountIn, isBorrow := false }]
-    newAuctions := w.newAuctions ++ [{ id := w.auctionId + 1, locked := w.lockedId + 1, asset := asset, amount := v.amountIn }] }
+    newLocked := w.newLocked ++ [{ id := w.lockedId + 1, orig := v.id, app := v.app, amountIn := v.amountIn, isBorrow := false,
+                                   debt := k.debt, target := k.target, fee := k.fee, bonus := k.bonus, cr := k.cr, collValue := k.collValue }]
+    newAuctions := w.newAuctions ++ [{ id := w.auctionId + 1, locked := w.lockedId + 1, asset := asset, amount := v.amountIn, target := k.target }] }
 
-/-- generation 2 `LiquidateIndividualVault` (liquidate.go:84-167). The interest accrual at :109-118 changes the
-recorded debt of the locked vault, not the collateral, and is not modelled (external value, notes/C09.md). -/
+/-- generation 2, what `LiquidateIndividualVault` computes after the accrual (liquidate.go:118-128, 174-190): total debt
+with the booked interest, ratio recomputed, `FeeToBeCollected = trunc(totalOut · LiquidationPenalty)`, no bonus,
+`TargetDebt = totalOut + fee` -/
+def amountsV2 (e : Env) (p : Product) (v : Vault) : Option Amounts :=
+  match vaultCR e p v.amountIn v.totalOutPost with
+  | none => none
+  | some cr =>
+    let fee := Dec.truncateInt (Dec.mul (Dec.ofInt v.totalOutPost) p.penalty)
+    some { debt := v.totalOutPost, target := v.totalOutPost + fee, fee := fee, bonus := 0, cr := cr, collValue := v.amountIn }
+
+/-- generation 1 (liquidate_vaults.go:74-90,106-137, dutch.go:99-104): locked vault `AmountOut` = principal,
+`InterestAccumulated` = interest + closing fee, `CollateralToBeAuctioned` = value of the collateral, auction inflow target =
+principal + trunc(principal · penalty) + interest + closing fee -/
+def amountsV1 (e : Env) (p : Product) (v : Vault) : Option Amounts :=
+  match vaultCR e p v.amountIn v.totalOutPost, e.valueOf p.assetIn v.amountIn with
+  | some cr, some tin =>
+    let fees := v.intPost + v.closingFee
+    some { debt := v.amountOut, target := v.amountOut + Dec.truncateInt (Dec.mul (Dec.ofInt v.amountOut) p.penalty) + fees,
+           fee := fees, bonus := 0, cr := cr, collValue := tin }
+  | _, _ => none
+
+/-- generation 2 `LiquidateIndividualVault` (liquidate.go:84-167). The DECISION is taken on the recorded debt (:104-109); the interest
+accrual at :110-118 follows and only enters the amounts written on the locked vault (`intPost`, external value). -/
 def liquidateVaultV2 (e : Env) (id : Nat) (w : World) : Option World :=
   match w.vaults.find? (·.id == id) with
   | none => none
@@ -284,7 +357,9 @@ def liquidateVaultV2 (e : Env) (id : Nat) (w : World) : Option World :=
           if !a.dutch2 then none else
           -- DutchAuctionActivator (auctions.go:35-59): whitelisting + dutch again, both oracle records active
           if !(e.priceActive p.assetIn && e.priceActive p.assetOut) then none else
-          handOver w v p.assetIn
+          match amountsV2 e p v with
+          | none => none
+          | some k => handOver w v p.assetIn k
         else some w
 
 /-- generation 1, the wrapped body of the sweep for app `a` (liquidate_vaults.go:50-98) on the snapshot `v` -/
@@ -301,7 +376,9 @@ def liquidateVaultV1 (e : Env) (a : Nat) (v : Vault) (w : World) : Option World 
         if p.outOracle && !e.priceActive p.assetOut then none else
         if !(e.app a).auc1 then none else
         if !e.priceActive p.assetIn then none else
-        handOver w v p.assetIn
+        match amountsV1 e p v with
+        | none => none
+        | some k => handOver w v p.assetIn k
       else some w
 
 /-- generation 1 `MsgLiquidateVault` (msg_server.go:25-91); `none` = the transaction fails -/
@@ -341,17 +418,28 @@ def liquidateBorrowV2 (e : Env) (id : Nat) (w : World) : Option World :=
         let a := e.app b.app
         if !a.wl2 then none else
         if w.poolBal.get b.assetIn < b.amountIn then none else
+        if w.poolBal.get b.cAsset < b.amountIn then none else     -- the cTokens are burnt from the pool account
         -- CreateLockedVault with AuctionType = IsDutchActivated; the Dutch activator needs both oracle records active
         if !a.dutch2 then none else
         if !(e.priceActive b.assetIn && e.priceActive b.assetOut) then none else
+        -- liquidate.go:372-375, 386: fee and bonus on the PRINCIPAL, debt token = principal (the accrued interest is not auctioned)
+        let fee := Dec.truncateInt (Dec.mul (Dec.ofInt b.principal) b.pen)
+        let bonus := Dec.truncateInt (Dec.mul (Dec.ofInt b.principal) b.bon)
+        let lendLeft := w.lendBal.get b.lendId - b.amountIn
         some { w with
           borrows := w.borrows.map (fun x => if x.id == id then { x with liquidated := true } else x)
-          poolBal := w.poolBal.add b.assetIn (- b.amountIn)
+          poolBal := (w.poolBal.add b.assetIn (- b.amountIn)).add b.cAsset (- b.amountIn)
           auctionBal := w.auctionBal.add b.assetIn b.amountIn
           lockedId := w.lockedId + 1
           auctionId := w.auctionId + 1
-          newLocked := w.newLocked ++ [{ id := w.lockedId + 1, orig := b.id, app := b.app, amountIn := b.amountIn, isBorrow := true }]
-          newAuctions := w.newAuctions ++ [{ id := w.auctionId + 1, locked := w.lockedId + 1, asset := b.assetIn, amount := b.amountIn }] }
+          newLocked := w.newLocked ++ [{ id := w.lockedId + 1, orig := b.id, app := b.app, amountIn := b.amountIn, isBorrow := true,
+                                         debt := b.principal, target := b.principal + fee, fee := fee, bonus := bonus, cr := r, collValue := b.amountIn }]
+          newAuctions := w.newAuctions ++ [{ id := w.auctionId + 1, locked := w.lockedId + 1, asset := b.assetIn, amount := b.amountIn,
+                                             target := b.principal + fee }]
+          -- :392-402 pool totals and the lend position shrink by exactly what left
+          totalBorrowed := w.totalBorrowed.add (statKey b.outPool b.assetOut) (- b.principal)
+          totalLend := w.totalLend.add (statKey b.pool b.assetIn) (- b.amountIn)
+          lendBal := if lendLeft > 0 then w.lendBal.add b.lendId (- b.amountIn) else w.lendBal.remove b.lendId }
       else some w
 
 /-- Result of a block hook -/
@@ -411,6 +499,65 @@ def blockV1 (e : Env) (batch : Nat) (w : World) : Outcome :=
     match goSlice w1.borrows b.1 b.2 with
     | none => .panic
     | some _ => .ok { w1 with offsets := w1.offsets.set lendAppId b.2.toNat }
+
+/-! ## generation 1: the borrow sell-off (`UpdateLockedBorrows`, liquidate_borrow.go:196-351)
+
+Generation 1 does not hand the whole collateral of a borrow over: it computes the dollar amount `selloff` that brings the
+position back to its loan-to-value, moves `trunc(bonus + selloff)` collateral units pool → auction account, `trunc(penalty)`
+units pool → reserve, and reduces the locked vault, the borrow and the lend position by
+`totalDeduction = trunc(deduction + selloff)` units (capped at what the position holds — the TRANSFERS are not capped). -/
+
+structure SellOffIn where
+  amountIn : Int        -- locked vault `AmountIn` (= the borrow's collateral)
+  updatedOut : Int      -- `UpdatedAmountOut` = principal + trunc(interest)
+  pIn : Int             -- active prices and decimals of the collateral / debt asset
+  pOut : Int
+  dIn : Int
+  dOut : Int
+  c : Dec               -- `Ltv` of the collateral asset (× `Ltv` of the transit asset for a cross-pool borrow); NOT the e-mode LTV
+  pen : Dec             -- `LiquidationPenalty` (`ELiquidationPenalty` in e-mode)
+  bon : Dec             -- `LiquidationBonus`
+deriving Repr, DecidableEq, Inhabited
+
+structure SellOffOut where
+  cr : Dec              -- ratio written on the locked vault
+  selloff : Dec         -- `CollateralToBeAuctioned` (a dollar value)
+  toAuction : Int       -- collateral units sent pool → auction account
+  toReserve : Int       -- collateral units sent pool → reserve (penalty)
+  totalDeduction : Int  -- burnt cTokens
+  newAmountIn : Int     -- what stays on the locked vault / the borrow as collateral
+  lendReduction : Int   -- what the lend position and `TotalLend` lose
+deriving Repr, DecidableEq, Inhabited
+
+/-- `none` = an error / panic before anything is written (zero value of the collateral, zero unit price, zero divisor) -/
+def sellOffV1 (i : SellOffIn) : Option SellOffOut :=
+  if i.dIn = 0 ∨ i.dOut = 0 then none else
+  let totalIn := assetValue i.amountIn i.pIn i.dIn
+  let totalOut := assetValue i.updatedOut i.pOut i.dOut
+  if totalIn = 0 then none else
+  let cr := Dec.quo totalOut totalIn
+  let b := Dec.one + (i.pen + i.bon)
+  let factor1 := Dec.mul i.c totalIn
+  let factor2 := Dec.mul b i.c
+  let numerator := totalOut - factor1
+  let denominator := Dec.one - factor2
+  if denominator = 0 then none else
+  let selloff := Dec.quo numerator denominator
+  let aip := assetValue 1 i.pIn i.dIn
+  if aip = 0 then none else
+  let deduction := Dec.quo (Dec.mul selloff (i.pen + i.bon)) aip
+  let bonusToBidder := Dec.quo (Dec.mul selloff i.bon) aip
+  let penaltyToReserve := Dec.quo (Dec.mul selloff i.pen) aip
+  let sellOffAmt := Dec.quo selloff aip
+  let totalDeduction := Dec.truncateInt (deduction + sellOffAmt)
+  -- `sdk.NewCoin` panics on a negative amount (a borrow that is not under water)
+  if Dec.truncateInt (bonusToBidder + sellOffAmt) < 0 ∨ Dec.truncateInt penaltyToReserve < 0 ∨ totalDeduction < 0 then none else
+  some { cr := cr, selloff := selloff
+         toAuction := Dec.truncateInt (bonusToBidder + sellOffAmt)
+         toReserve := Dec.truncateInt penaltyToReserve
+         totalDeduction := totalDeduction
+         newAmountIn := if totalDeduction ≥ i.amountIn then 0 else i.amountIn - totalDeduction
+         lendReduction := if totalDeduction ≥ i.amountIn then i.amountIn else totalDeduction }
 
 /-! ## the abstract sweep used for the liveness theorems
 
